@@ -319,8 +319,23 @@ def one_scenario(run, seed, idx, mods, mode):
         rings_to_use = "ends"
     elif noisy:
         ncls = str(r.choice(["noise", "noise+spurious", "noise+missing", "spurious", "junk", "all", "noise-wide"]))
+        if idx % 8 == 5:
+            ncls = "shell"
         dmin = float(ds.min())
-        if ncls == "noise-wide":
+        if ncls == "shell":
+            # 40-50 % of every grain's peaks sit just OUTSIDE the tolerance sphere in hkl space (|dh| = 1.1-1.3 hkl_tol with
+            # every single component, and every pair of components, inside the tolerance); minpks lies between the number
+            # of peaks really indexed and the number a per-axis test would count: nothing may be reported with <= minpks
+            frac = float(r.uniform(0.4, 0.5))
+            out = r.random(len(gv0)) < frac
+            e = r.choice([-1.0, 1.0], (len(gv0), 3)) * r.uniform(0.9, 1.1, (len(gv0), 3))
+            e *= (float(r.uniform(1.1, 1.3)) * hkl_tol / np.sqrt((e * e).sum(axis=1)))[:, None]
+            e[~out] = 0.0
+            noise = np.concatenate([e[gid == g] @ UBs[g].T for g in range(ngr)])
+            minpks = int(nper * (1.0 - 0.5 * frac))
+            route = "score_all_pairs"
+            run.count("noise_shell_scenarios")
+        elif ncls == "noise-wide":
             # errors comparable with the (first) tolerance: many peaks of a grain lie between a tight and a loose pass
             noise = r.normal(0, float(r.uniform(0.5, 0.9)) * hkl_tol / max(cell[:3]), gv0.shape)
         elif "noise" in ncls or ncls == "all":
@@ -536,6 +551,7 @@ def check(run, replay=None):
     run.require_counter("boundary_minpks_scenarios", 3)
     run.require_counter("hiorder_scenarios", 8)
     run.require_counter("single_ring_scenarios", 3)
+    run.require_counter("noise_shell_scenarios", 2)
     run.require_counter("reset_histories", 2)
     run.require_counter("multi_pass_runs", 3)
     run.require_counter("do_index_half_turn_scans_through_zero:ideal", 1)
